@@ -163,15 +163,21 @@ theorem heartbeat_commit_rejected {c : Cfg} {l : Local} {file : File} {din : Opt
     simp [r, step, hk, hs, noop, lcUpdate, blcUpdateInstance, commit]
   all_goals (cases h : Desc.get? (din.getD []) c.id <;> simp [h])
 
-/-- `ClaimTokensFor` whose CAS fails (call rejected, empty ring, commit rejected) claims nothing and forgets nothing -/
+/-- `ClaimTokensFor` whose CAS fails (call rejected, empty ring, commit rejected) claims nothing and forgets nothing:
+remembered state, tokens, read-only state and the tokens file are as before, the store is unchanged. (Only the remembered
+registration time may have been refreshed: when the commit is rejected after the callback found the own entry missing.) -/
 theorem claim_failed_keeps {c : Cfg} {l : Local} {file : File} {din : Option Desc} {frm : String} {now : Int} {gen : Gen} {fault : Fault}
     (hk : c.kind = .LC) (hs : l.started = true) (hfail : fault ≠ .none ∨ din = none) :
     let r := step c l file din (.claim frm) now gen fault
-    r.l = l ∧ r.file = file ∧ commit din r fault = din ∧ r.ret = .ok := by
+    r.l.tokens = l.tokens ∧ r.l.state = l.state ∧ r.l.ro = l.ro ∧ r.l.started = true ∧ r.file = file ∧
+    commit din r fault = din ∧ r.ret = .ok ∧ (fault = .failBefore ∨ din = none → r.l = l) := by
   intro r
   cases fault with
   | failBefore => simp [r, step, hk, hs, lcClaim, commit]
-  | failCommit => cases din <;> simp [r, step, hk, hs, lcClaim, commit]
+  | failCommit =>
+    cases din with
+    | none => simp [r, step, hk, hs, lcClaim, commit]
+    | some d => cases hg : Desc.get? d c.id <;> simp [r, step, hk, hs, lcClaim, commit, hg]
   | none =>
     rcases hfail with h | h
     · exact absurd rfl h
@@ -289,25 +295,26 @@ theorem later_progress {c : Cfg} {l : Local} {file : File} {din : Option Desc} {
     cases ho : r.out with
     | write d' => rw [commit_write ho]; exact h d' ho
     | _ => rw [commit_nowrite (by intro d; rw [ho]; simp)]; exact hp
+  obtain ⟨e0, he0⟩ := Option.isSome_iff_exists.mp hp
   rcases hev with rfl | rfl | rfl
   · -- join timer
     by_cases hpd : l.state = .PENDING
-    · refine ⟨by simp [r, step, hk, hs, lcJoinTimer, hpd, lcAutoJoin], hpres r ?_, ?_, by simp, by simp⟩
+    · refine ⟨by simp [r, step, hk, hs, lcJoinTimer, hpd, lcAutoJoin, he0], hpres r ?_, ?_, by simp, by simp⟩
       · intro d' ho
-        simp [r, step, hk, hs, lcJoinTimer, hpd, lcAutoJoin] at ho
+        simp [r, step, hk, hs, lcJoinTimer, hpd, lcAutoJoin, he0] at ho
         subst ho; rw [get?_put]; simp [lcInst]
       · intro _
         refine ⟨fun _ => ?_, fun h => absurd hpd h⟩
-        simp only [r, step, hk, hs, lcJoinTimer, hpd, lcAutoJoin]
+        simp only [r, step, hk, hs, lcJoinTimer, hpd, lcAutoJoin, he0]
         simp only [Bool.not_true, Bool.false_eq_true, if_false, if_true, reduceCtorEq]
         cases c.observe <;> simp
     · refine ⟨by simp [r, step, hk, hs, lcJoinTimer, hpd], hpres r ?_, ?_, by simp, by simp⟩
       · intro d' ho; simp [r, step, hk, hs, lcJoinTimer, hpd] at ho
       · intro _; exact ⟨fun h => absurd h hpd, fun _ => by simp [r, step, hk, hs, lcJoinTimer, hpd]⟩
   · -- verify
-    refine ⟨by simp [r, step, hk, hs, lcVerify], hpres r ?_, by simp, fun _ => by simp [r, step, hk, hs, lcVerify], by simp⟩
+    refine ⟨by simp [r, step, hk, hs, lcVerify, he0], hpres r ?_, by simp, fun _ => by simp [r, step, hk, hs, lcVerify, he0], by simp⟩
     intro d' ho
-    simp only [r, step, hk, hs, lcVerify] at ho
+    simp only [r, step, hk, hs, lcVerify, he0] at ho
     simp only [Bool.not_true, Bool.false_eq_true, if_false, reduceCtorEq] at ho
     split at ho
     · simp at ho
@@ -522,13 +529,14 @@ theorem restart_join_tokens {c : Cfg} {file : File} {d : Desc} {e : Inst} {shuf 
   intro r1 st1 r2
   have hnd : e.tokens.Nodup := hsorted.imp (fun h => by omega)
   -- after initRing: remembered PENDING, started, registration time of the entry, and the ring still holds e's tokens
-  have h1 : r1.l.started = true ∧ r1.l.state = .PENDING ∧ r1.l.regTs = e.regTs ∧ tokensOf (st1.getD []) c.id = e.tokens := by
+  have h0 : r1.l.started = true ∧ r1.l.state = .PENDING ∧ r1.l.regTs = e.regTs ∧
+      ∃ e1, Desc.get? (st1.getD []) c.id = some e1 ∧ e1.tokens = e.tokens := by
     rcases hst with hj | hp
     · have := init_died_joining (file := file) (shuf := shuf) (now := now) (gen := gen) (fault := .none) hk (by decide) he hj l
       simp only [] at this
-      refine ⟨this.1, this.2.1, this.2.2.2.1, ?_⟩
+      refine ⟨this.1, this.2.1, this.2.2.2.1, e, ?_, rfl⟩
       have hout := this.2.2.2.2.1
-      simp only [st1, r1, commit_write hout, Option.getD_some, tokensOf, he]
+      simp only [st1, r1, commit_write hout, Option.getD_some, he]
     · have hj : e.state ≠ .JOINING := by rw [hp]; decide
       have hl : e.state ≠ .LEAVING := by rw [hp]; decide
       have := init_resumes_other (file := file) (shuf := shuf) (now := now) (gen := gen) (fault := .none) hk (by decide) he hj hl l
@@ -536,25 +544,97 @@ theorem restart_join_tokens {c : Cfg} {file : File} {d : Desc} {e : Inst} {shuf 
       refine ⟨this.1, by rw [this.2.1, hp], this.2.2.2.1, ?_⟩
       cases ho : r1.out with
       | write d1 =>
-        simp only [st1, commit_write ho, Option.getD_some, tokensOf]
         have hpres := write_has_own (c := c) (l := l) (file := file) (din := some d) (e := .init shuf) (now := now) (gen := gen) (by simp) ho
         obtain ⟨b1, hb1⟩ := Option.isSome_iff_exists.mp hpres
-        rw [hb1]
-        exact (this.2.2.2.2 d1 b1 ho hb1).2.1
+        refine ⟨b1, ?_, (this.2.2.2.2 d1 b1 ho hb1).2.1⟩
+        simp only [st1, commit_write ho, Option.getD_some, hb1]
       | noCas | declined | cbErr =>
-        simp only [st1, commit_nowrite (r := r1) (by intro x; rw [ho]; simp), Option.getD_some, tokensOf, he]
+        refine ⟨e, ?_, rfl⟩
+        simp only [st1, commit_nowrite (r := r1) (by intro x; rw [ho]; simp), Option.getD_some, he]
+  obtain ⟨h1a, h1b, h1c, e1, he1, he1t⟩ := h0
+  have htok : tokensOf (st1.getD []) c.id = e.tokens := by simp [tokensOf, he1, he1t]
   obtain ⟨d', b, h2, h3, _, _, h5, h6, h7, h8, h9⟩ :=
-    lc_join_tokens (c := c) (l := r1.l) (file := r1.file) (din := st1) (now := now) (gen := gen) (fault := .none) hk h1.1 h1.2.1 hg
-      (by decide) (by rw [h1.2.2.2]; exact hnd) (by rw [h1.2.2.2]; exact hle)
-  refine ⟨d', b, h2, h3, ?_, h6, h7, by rw [← h1.2.2.2]; exact h8, h5, by rw [← h1.2.2.2]; exact h9⟩
-  -- registration time: the join publishes the remembered one
+    lc_join_tokens (c := c) (l := r1.l) (file := r1.file) (din := st1) (now := now) (gen := gen) (fault := .none) hk h1a h1b hg
+      (by decide) (by rw [htok]; exact hnd) (by rw [htok]; exact hle)
+  refine ⟨d', b, h2, h3, ?_, h6, h7, by rw [← htok]; exact h8, h5, by rw [← htok]; exact h9⟩
+  -- registration time: the join publishes the remembered one (the entry is there, so nothing is refreshed)
   have : r2.out = .write d' := h2
-  simp only [r2, step, hk, h1.1, Bool.not_true, Bool.false_eq_true, if_false, lcJoinTimer, h1.2.1, if_true, lcAutoJoin, reduceCtorEq,
-    CasOut.write.injEq] at this
+  simp only [r2, step, hk, h1a, Bool.not_true, Bool.false_eq_true, if_false, lcJoinTimer, h1b, if_true, lcAutoJoin, reduceCtorEq,
+    he1, CasOut.write.injEq] at this
   subst this
   rw [get?_put] at h3
   simp [lcInst] at h3
   subst h3
-  simp [lcInst, h1.2.2.1]
+  simp [lcInst, h1c]
+
+/-- full Lifecycler: EVERY handler that writes while the own entry is missing from the ring re-inserts it with a fresh
+registration time (and remembers it) -/
+theorem lc_any_reregisters_fresh {c : Cfg} {l : Local} {file : File} {din : Option Desc} {ev : Event} {now : Int} {gen : Gen}
+    {d' : Desc} (hk : c.kind = .LC) (hs : l.started = true) (habs : Desc.get? (din.getD []) c.id = none)
+    (hev : ev = .heartbeat ∨ ev = .verify ∨ ev = .joinTimer ∨ (∃ s, ev = .changeState s) ∨ (∃ r, ev = .changeRO r) ∨
+      ∃ frm, ev = .claim frm ∧ frm ≠ c.id)
+    (h : (step c l file din ev now gen .none).out = .write d') :
+    ∃ b, Desc.get? d' c.id = some b ∧ b.regTs = now ∧ b.addr = c.addr ∧ b.zone = c.zone ∧
+      (step c l file din ev now gen .none).l.regTs = now ∧
+      (ev = .heartbeat ∨ ev = .verify ∨ (∃ r, ev = .changeRO r) → b.tokens = l.tokens ∧ b.state = l.state) ∧
+      ((∃ frm, ev = .claim frm) → b.state = l.state) := by
+  have hput : ∀ (d : Desc) (i : Inst), i.id = c.id → Desc.get? (put d i) c.id = some i := by
+    intro d i hi; rw [← hi]; exact get?_put_self d i
+  rcases hev with rfl | rfl | rfl | ⟨s, rfl⟩ | ⟨r, rfl⟩ | ⟨frm, rfl, hfrm⟩
+  · have hl : (step c l file din .heartbeat now gen .none).l.regTs = now := by simp [step, hk, hs, lcUpdate, habs]
+    simp only [step, hk, hs, Bool.not_true, Bool.false_eq_true, if_false, lcUpdate, reduceCtorEq, habs, CasOut.write.injEq] at h
+    subst h
+    exact ⟨_, hput _ _ rfl, rfl, rfl, rfl, hl, fun _ => ⟨rfl, rfl⟩, fun ⟨_, h⟩ => by cases h⟩
+  · have hl : (step c l file din .verify now gen .none).l.regTs = now := by simp [step, hk, hs, lcVerify, habs]
+    simp only [step, hk, hs, Bool.not_true, Bool.false_eq_true, if_false, lcVerify, reduceCtorEq, habs, CasOut.write.injEq] at h
+    subst h
+    exact ⟨_, hput _ _ rfl, rfl, rfl, rfl, hl, fun _ => ⟨rfl, rfl⟩, fun ⟨_, h⟩ => by cases h⟩
+  · by_cases hp : l.state = .PENDING
+    · have hl : (step c l file din .joinTimer now gen .none).l.regTs = now := by simp [step, hk, hs, lcJoinTimer, hp, lcAutoJoin, habs]
+      simp only [step, hk, hs, Bool.not_true, Bool.false_eq_true, if_false, lcJoinTimer, hp, if_true, lcAutoJoin, reduceCtorEq, habs,
+        CasOut.write.injEq] at h
+      subst h
+      refine ⟨_, hput _ _ rfl, rfl, rfl, rfl, hl, ?_, fun ⟨_, h⟩ => by cases h⟩
+      intro h; rcases h with h | h | ⟨_, h⟩ <;> cases h
+    · simp [step, hk, hs, lcJoinTimer, hp] at h
+  · by_cases hal : allowed l.state s = true
+    · have hl : (step c l file din (.changeState s) now gen .none).l.regTs = now := by simp [step, hk, hs, lcChangeState, hal, lcUpdate, habs]
+      simp only [step, hk, hs, Bool.not_true, Bool.false_eq_true, if_false, lcChangeState, hal, if_true, lcUpdate, reduceCtorEq, habs,
+        CasOut.write.injEq] at h
+      subst h
+      refine ⟨_, hput _ _ rfl, rfl, rfl, rfl, hl, ?_, fun ⟨_, h⟩ => by cases h⟩
+      intro h; rcases h with h | h | ⟨_, h⟩ <;> cases h
+    · simp [step, hk, hs, lcChangeState, hal] at h
+  · by_cases hne : l.ro = r
+    · simp [step, hk, hs, lcChangeRO, hne] at h
+    · have hl : (step c l file din (.changeRO r) now gen .none).l.regTs = now := by simp [step, hk, hs, lcChangeRO, hne, lcUpdate, habs]
+      simp only [step, hk, hs, Bool.not_true, Bool.false_eq_true, if_false, lcChangeRO, hne, lcUpdate, reduceCtorEq, habs,
+        CasOut.write.injEq] at h
+      subst h
+      exact ⟨_, hput _ _ rfl, rfl, rfl, rfl, hl, fun _ => ⟨rfl, rfl⟩, fun ⟨_, h⟩ => by cases h⟩
+  · cases din with
+    | none => simp [step, hk, hs, lcClaim] at h
+    | some d =>
+      simp only [Option.getD_some] at habs
+      have hl : (step c l file (some d) (.claim frm) now gen .none).l.regTs = now := by simp [step, hk, hs, lcClaim, habs]
+      simp only [step, hk, hs, Bool.not_true, Bool.false_eq_true, if_false] at h
+      rw [lcClaim_out (by decide)] at h
+      simp only [CasOut.write.injEq] at h
+      subst h
+      -- the base descriptor holds the re-inserted own entry; claiming from somebody else keeps everything but tokens and heartbeat
+      have hbase : Desc.get? (claimBase c l d now) c.id = some (lcInst c { l with regTs := now } l.tokens now) := by
+        simp only [claimBase, habs]; exact hput _ _ rfl
+      cases hf : Desc.get? (claimBase c l d now) frm with
+      | none =>
+        simp only [claimOn, hf, hbase, Option.getD_some]
+        refine ⟨_, hput _ _ rfl, rfl, rfl, rfl, hl, ?_, fun _ => rfl⟩
+        intro h; rcases h with h | h | ⟨_, h⟩ <;> cases h
+      | some f =>
+        have hown : Desc.get? (put (claimBase c l d now) { f with tokens := [] }) c.id =
+            some (lcInst c { l with regTs := now } l.tokens now) := by
+          rw [get?_put_other _ _ _ (by simpa [get?_some_id hf] using hfrm.symm)]; exact hbase
+        simp only [claimOn, hf, hown, Option.getD_some]
+        refine ⟨_, hput _ _ rfl, rfl, rfl, rfl, hl, ?_, fun _ => rfl⟩
+        intro h; rcases h with h | h | ⟨_, h⟩ <;> cases h
 
 end PfC09
